@@ -6,6 +6,7 @@
    [clamp floor] is make_score's std::max(rss, epsilon * 1e3); [thresholds c] are the mid-points of consecutive distinct sorted
    present values. *)
 From Coq Require Import List ZArith QArith Bool Permutation.
+From LNGen Require Import Src_c10.
 From LN Require Import C10_Defs C10_Proofs.
 Import ListNotations.
 Local Open Scope Q_scope.
@@ -71,6 +72,114 @@ Theorem C10_affine_optimal : forall no floor (cs : list (col Q)),
 Proof. exact affine_fit_optimal. Qed.
 Print Assumptions C10_affine_optimal.
 
+(* a feature is left out of the affine fit only if its present values are all equal (equality case of Cauchy-Schwarz) *)
+Theorem C10_affine_degenerate : forall l : list (Q * Q),
+  ms fxx l * ms f1 l - ms fx l * ms fx l == 0 -> forall a b, In a l -> In b l -> fst a == fst b.
+Proof. exact det_zero_const. Qed.
+Print Assumptions C10_affine_degenerate.
+
+(* the thresholds tried by the stump and hinge sweeps are exactly the mid-points of two present values without a present value
+   strictly in between (compared as rationals) *)
+Theorem C10_thresholds_are_midpoints : forall (c : col Q),
+  (forall t, In t (thresholds c) ->
+     exists a b, In a (map fst (present c)) /\ In b (map fst (present c)) /\ a < b /\ t = (1 # 2) * (a + b) /\
+                 forall x, In x (map fst (present c)) -> x <= a \/ b <= x) /\
+  (forall a b, In a (map fst (present c)) -> In b (map fst (present c)) -> a < b ->
+     (forall x, In x (map fst (present c)) -> x <= a \/ b <= x) -> exists t, In t (thresholds c) /\ t == (1 # 2) * (a + b)).
+Proof. exact (fun c => conj (thresholds_sound c) (thresholds_complete c)). Qed.
+Print Assumptions C10_thresholds_are_midpoints.
+
+(* dense table: minimum over all features and ALL tables (any vector for any label set) *)
+Theorem C10_dense_optimal : forall no floor (cs : list (col Z)),
+  match dense_fit no floor cs with
+  | Some s => (exists c T, In c cs /\ s == clamp floor (rss_of no T c)) /\
+              (forall c T, In c cs -> s <= clamp floor (rss_of no T c))
+  | None => cs = []
+  end.
+Proof. exact dense_fit_optimal. Qed.
+Print Assumptions C10_dense_optimal.
+
+(* k-best table. Full statement (NOT proved): for every k, the k-th partial sum of the gain sweep is the minimum RSS over the tables
+   supported on at most k label sets (top-k gains). *)
+Definition C10_kbest_topk_full_statement : Prop :=
+  forall no (c : col Z) (k : nat) x (keys : list Z) (T : Z -> list Q), (0 < no)%nat ->
+    nth_error (kbest_rss_seq no (-1) c) k = Some x -> NoDup keys -> (length keys <= S k)%nat ->
+    (forall key, ~ In key keys -> T key = []) -> x <= rss_of no T c.
+(* proved: with the RSS criterion the fit takes the minimum over k, which is the dense optimum over the features that have at
+   least one present value (the partial sums decrease to it) ... *)
+Theorem C10_kbest_optimal_partial : forall no floor maxk (cs : list (col Z)), (0 < no)%nat -> (maxk < 1)%Z ->
+  match kbest_fit no floor maxk cs with
+  | Some s => (exists c T, In c cs /\ keys_of (present c) <> [] /\ s == clamp floor (rss_of no T c)) /\
+              (forall c T, In c cs -> keys_of (present c) <> [] -> s <= clamp floor (rss_of no T c))
+  | None => forall c, In c cs -> keys_of (present c) = []
+  end.
+Proof. exact kbest_fit_optimal. Qed.
+Print Assumptions C10_kbest_optimal_partial.
+(* ... and k = 1 (the discrete-step table): minimum over the tables that predict one vector for one label set and zero elsewhere *)
+Theorem C10_dstep_optimal : forall no floor (cs : list (col Z)), (0 < no)%nat ->
+  match kbest_fit no floor 1 cs with
+  | Some s => (exists c k0 t, In c cs /\ keys_of (present c) <> [] /\ s == clamp floor (rss_of no (single k0 t) c)) /\
+              (forall c k0 t, In c cs -> keys_of (present c) <> [] -> s <= clamp floor (rss_of no (single k0 t) c))
+  | None => forall c, In c cs -> keys_of (present c) = []
+  end.
+Proof. exact dstep_fit_optimal. Qed.
+Print Assumptions C10_dstep_optimal.
+
+(* per-thread caches + min_reduce: whatever the concurrency (chunk size from select_iterator_t), the reduced score is the minimum
+   of all candidates *)
+Theorem C10_chunks_irrelevant : forall concurrency (percol : list (list Q)),
+  match fit_chunked concurrency percol, best_of (concat percol) with
+  | Some a, Some b => a == b
+  | None, None => True
+  | _, _ => False
+  end.
+Proof. exact fit_chunked_spec. Qed.
+Print Assumptions C10_chunks_irrelevant.
+
+(* ---- consistency of the fitted learners (all kinds, incl. k-best / k-split tables and trees) ------------------------------------ *)
+Theorem C10_predict_additive : forall no w s out o, (o < no)%nat ->
+  rget o (predict no w s out) == rget o out + rget o (predict no w s (zeros no)).
+Proof. exact predict_additive. Qed.
+Print Assumptions C10_predict_additive.
+
+Theorem C10_missing_zero : forall no w s out,
+  (group w s = None -> predict no w s out = out) /\
+  (forall f, feature_of w = Some f -> fget f s = FMiss -> group w s = None).
+Proof. exact missing_zero. Qed.
+Print Assumptions C10_missing_zero.
+
+Theorem C10_split_table : forall no w s g, group w s = Some g ->
+  if table_like w then incr no w s = Some (znth g (tables_of w) [])
+  else g = 0%Z /\ exists f x, feature_of w = Some f /\ fget f s = FNum x /\
+                              incr no w s = Some (affine_pred no (znth 0%Z (tables_of w) []) (znth 1%Z (tables_of w) []) x).
+Proof. exact split_table. Qed.
+Print Assumptions C10_split_table.
+
+Theorem C10_scale : forall no sc w s o, (o < no)%nat -> (table_like w = false -> sfac sc 0 == sfac sc 1) ->
+  group (scale sc w) s = group w s /\
+  rget o (predict no (scale sc w) s (zeros no))
+  == (match group w s with Some g => sfac sc g | None => 1 end) * rget o (predict no w s (zeros no)).
+Proof. exact scale_spec. Qed.
+Print Assumptions C10_scale.
+(* the factor: one scale for all groups, or the scale of the group *)
+Theorem C10_scale_factor :
+  (forall k i, (0 <= i)%Z -> sfac [k] i = k) /\
+  (forall sc i, (0 <= i < Z.of_nat (length sc))%Z -> sfac sc i = znth i sc 0).
+Proof. exact (conj sfac_single sfac_own). Qed.
+Print Assumptions C10_scale_factor.
+
+Theorem C10_merge_sum : forall no ws s out o, (o < no)%nat ->
+  rget o (predict_all no (merge ws) s out) == rget o (predict_all no ws s out).
+Proof. exact merge_sum. Qed.
+Print Assumptions C10_merge_sum.
+
+Theorem C10_tree_depth1_is_stump : forall no f thr lo hi s out,
+  (forall size minsize, src_c10_tree_terminal_fit size minsize 0 1 = true) /\
+  group (tree_of_stump f thr lo hi) s = group (WStump f thr lo hi) s /\
+  predict no (tree_of_stump f thr lo hi) s out = predict no (WStump f thr lo hi) s out.
+Proof. exact tree_depth1_is_stump. Qed.
+Print Assumptions C10_tree_depth1_is_stump.
+
 (* ---- non-vacuity ------------------------------------------------------------------------------------------------------------------ *)
 Definition ex_col : col Q := [(Some 0, [1]); (Some 1, [2]); (Some 2, [4]); (None, [1]); (Some 1, [3])].
 Example C10_nonvacuous_thresholds : thresholds ex_col = [(1 # 2) * (0 + 1); (1 # 2) * (1 + 2)].
@@ -83,3 +192,53 @@ Example C10_nonvacuous_affine : exists s, affine_fit 1 (1 # 1000) [ex_col] = Som
 Proof. eexists. split; [vm_compute; reflexivity | split; [vm_compute; discriminate | vm_compute; reflexivity]]. Qed.
 Example C10_nonvacuous_mean : [(0, 1); (0, 3)] <> [] /\ ms frr [(0, 1); (0, 3)] - ms fr [(0, 1); (0, 3)] * ms fr [(0, 1); (0, 3)] / ms f1 [(0, 1); (0, 3)] == 2.
 Proof. split; [discriminate | vm_compute; reflexivity]. Qed.
+Example C10_nonvacuous_ls_origin : 0 < ms fxx [(1, 1); (2, 3)] /\ ms frr [(1, 1); (2, 3)] - ms frx [(1, 1); (2, 3)] * ms frx [(1, 1); (2, 3)] / ms fxx [(1, 1); (2, 3)] == 1 # 5.
+Proof. split; vm_compute; reflexivity. Qed.
+Example C10_nonvacuous_normal_equations : 0 < m_x0 (mom_of1 [(0, 1); (1, 2); (2, 4)]) /\ 0 < adet (mom_of1 [(0, 1); (1, 2); (2, 4)]).
+Proof. split; vm_compute; reflexivity. Qed.
+Example C10_nonvacuous_degenerate : ms fxx [(2, 1); (2, 5)] * ms f1 [(2, 1); (2, 5)] - ms fx [(2, 1); (2, 5)] * ms fx [(2, 1); (2, 5)] == 0.
+Proof. vm_compute. reflexivity. Qed.
+Example C10_nonvacuous_running : cuts [] [(0, [1]); (1, [2]); (1, [3]); (2, [4])] <> [] /\ length (cuts [] [(0, [1]); (1, [2]); (1, [3]); (2, [4])]) = 2%nat.
+Proof. split; [vm_compute; discriminate | vm_compute; reflexivity]. Qed.
+(* categorical column: label sets 7, 3, 7, missing, 5 with two outputs *)
+Definition ex_ccol : col Z := [(Some 7%Z, [1; 0]); (Some 3%Z, [2; 1]); (Some 7%Z, [3; 0]); (None, [1; 1]); (Some 5%Z, [0; 0])].
+Example C10_nonvacuous_dense : exists s, dense_fit 2 (1 # 1000) [ex_ccol] = Some s /\ s == 4.
+Proof. eexists. split; [vm_compute; reflexivity | vm_compute; reflexivity]. Qed.
+Example C10_nonvacuous_kbest : (0 < 2)%nat /\ (-1 < 1)%Z /\ keys_of (present ex_ccol) = [3%Z; 5%Z; 7%Z] /\
+  exists s, kbest_fit 2 (1 # 1000) (-1) [ex_ccol] = Some s /\ s == 4 /\ length (kbest_rss_seq 2 (-1) ex_ccol) = 3%nat.
+Proof.
+  split; [repeat constructor|]. split; [reflexivity|]. split; [vm_compute; reflexivity|].
+  eexists. split; [vm_compute; reflexivity | split; vm_compute; reflexivity].
+Qed.
+Example C10_nonvacuous_dstep : exists s, kbest_fit 2 (1 # 1000) 1 [ex_ccol] = Some s /\ s == 9.
+Proof. eexists. split; [vm_compute; reflexivity | vm_compute; reflexivity]. Qed.
+Example C10_nonvacuous_chunks : exists a, fit_chunked 2 [[3]; [1; 2]; []; [1]; [5]] = Some a /\ a == 1 /\
+  src_c10_features_per_thread 5 2 = 3%Z.
+Proof. eexists. split; [vm_compute; reflexivity | split; vm_compute; reflexivity]. Qed.
+(* learners: a k-best table whose hashes are stored in gain order, a tree of depth 2, an affine learner *)
+Definition ex_table : wl := WTable 1 [3%Z; 9%Z] [0%Z; 1%Z] [[1; 2]; [3; 4]].
+Definition ex_tree : wl :=
+  WTree [mknode 0 (1 # 2) 2 (-1); mknode 0 (1 # 2) 4 (-1); mknode 0 (-1) 0 0; mknode 0 (-1) 0 1; mknode 0 2 0 2; mknode 0 2 0 3]
+        [[1]; [2]; [3]; [4]].
+Definition ex_sample : sample := [FNum 1; FCls 9%Z].
+Example C10_nonvacuous_predict : group ex_table ex_sample = Some 1%Z /\ predict 2 ex_table ex_sample [10; 20] = [10 + 3; 20 + 4] /\
+  group ex_tree ex_sample = Some 2%Z /\ group ex_tree [FNum 5; FMiss] = Some 3%Z /\ group ex_tree [FNum (-3); FMiss] = Some 0%Z.
+Proof. repeat split; vm_compute; reflexivity. Qed.
+Example C10_nonvacuous_missing : feature_of ex_table = Some 1%nat /\ fget 1 [FNum 1; FMiss] = FMiss /\ group ex_tree [FMiss; FMiss] = None.
+Proof. repeat split; vm_compute; reflexivity. Qed.
+Example C10_nonvacuous_split : table_like ex_table = true /\ table_like (WAffine 0 [2] [1]) = false /\
+  group (WAffine 0 [2] [1]) ex_sample = Some 0%Z /\ group (WHinge 0 3 true [2] [1]) ex_sample = Some 0%Z /\
+  group (WHinge 0 3 false [2] [1]) ex_sample = None.
+Proof. repeat split; vm_compute; reflexivity. Qed.
+Example C10_nonvacuous_scale : sfac [2] 0 == sfac [2] 1 /\ sfac [2; 3] 1 = 3 /\
+  rget 0 (predict 1 (scale [2] (WAffine 0 [2] [1])) ex_sample (zeros 1)) == 6 /\
+  predict 2 (scale [2; 5] ex_table) ex_sample (zeros 2) = [0 + 3 * 5; 0 + 4 * 5].
+Proof. repeat split; vm_compute; reflexivity. Qed.
+(* merge: the first two affine learners merge, the stump stops the outer loop, the two tables behind it stay apart *)
+Definition ex_list : list wl := [WAffine 0 [2] [1]; WAffine 0 [1] [1]; WStump 0 0 [1] [2]; ex_table; ex_table].
+Example C10_nonvacuous_merge : length (merge ex_list) = 4%nat /\ length (merge [ex_table; WStump 0 0 [1] [2]; ex_table]) = 2%nat /\
+  length (merge [WStump 0 0 [1] [2]; ex_table; ex_table]) = 3%nat.
+Proof. repeat split; vm_compute; reflexivity. Qed.
+Example C10_nonvacuous_depth1 : group (tree_of_stump 0 (1 # 2) [1] [2]) ex_sample = Some 1%Z /\
+  src_c10_tree_terminal_fit 60 3 0 1 = true /\ src_c10_tree_terminal_fit 60 3 0 2 = false.
+Proof. repeat split; vm_compute; reflexivity. Qed.
